@@ -14,6 +14,8 @@ type Dumper struct {
 	b       strings.Builder
 	Missing []string
 	Lines   bool // include statement line numbers
+	// SkipEmpty - drop EmptyStmt nodes (the `；` separator is a statement of its own)
+	SkipEmpty bool
 }
 
 func isNil(x any) bool {
@@ -31,6 +33,13 @@ func isNil(x any) bool {
 func (d *Dumper) miss(what string) {
 	d.Missing = append(d.Missing, what)
 	d.b.WriteString("<MISSING:" + what + ">")
+}
+
+// DumpProgramNoEmpty - like DumpProgram, with empty statements dropped
+func DumpProgramNoEmpty(p *syntax.Program) (string, []string) {
+	d := &Dumper{SkipEmpty: true}
+	d.program(p)
+	return d.b.String(), d.Missing
 }
 
 // DumpProgram - canonical text and missing parts of a program
@@ -126,6 +135,9 @@ func (d *Dumper) block(b *syntax.StmtBlock, where string, nonEmpty bool) {
 	}
 	d.b.WriteString("(block")
 	for _, s := range b.Children {
+		if _, empty := s.(*syntax.EmptyStmt); empty && d.SkipEmpty {
+			continue
+		}
 		d.b.WriteString(" ")
 		d.stmt(s)
 	}
